@@ -418,3 +418,19 @@ Definition src_Timer_stop : list string :=  [
 
 Definition src_Timer_report : list string :=  [
    "return self.clock.report()"].
+
+Definition bf_hops : Z := (2)%Z.
+Definition bf_walks : bool := true.
+Definition bf_walk_pred : string := "_in_package(backend_frame.f_code.co_filename)".
+Definition sr_private_helpers : list string := ["_PACKAGE_DIR = os.path.dirname(os.path.abspath(__file__))"; "def _in_package(filename: str) -> bool: ;     """"""Returns True for the source files of the nada_dsl package itself."""""" ;     return os.path.abspath(filename).startswith(_PACKAGE_DIR + os.sep)"].
+Definition bf_rest : list string := ["lineno = backend_frame.f_lineno"; "offset, length = SourceRef.try_get_line_info(backend_frame, lineno)"; "return cls(lineno=lineno, offset=offset, file=os.path.basename(backend_frame.f_code.co_filename), length=length)"].
+
+Definition li_split : string := "src.splitlines()".
+Definition li_guard_le : bool := true.
+Definition li_range_minus : Z := (1)%Z.
+Definition li_plus : Z := (1)%Z.
+Definition li_index_minus : Z := (1)%Z.
+Definition li_pre : list string := ["if _in_package(backend_frame.f_code.co_filename): ;     return (0, 0)"; "filename = os.path.basename(backend_frame.f_code.co_filename)"; "src = None"; "try: ;     if filename not in USED_SOURCES: ;         with open(f'{backend_frame.f_code.co_filename}', encoding='utf-8') as file: ;             src = file.read() ;         USED_SOURCES[filename] = src ;     else: ;         src = USED_SOURCES[filename] ; except OSError: ;     return (0, 0)"].
+Definition li_tail : list string := ["return (0, 0)"].
+
+Definition back_frame_sites : list (string * string * Z) :=  [("nada_dsl/nada_types/__init__.py", "__init__", (1)%Z); ("nada_dsl/nada_types/collections.py", "__getattr__", (1)%Z); ("nada_dsl/nada_types/collections.py", "__getitem__", (1)%Z); ("nada_dsl/nada_types/collections.py", "inner_product", (1)%Z); ("nada_dsl/nada_types/collections.py", "map", (1)%Z); ("nada_dsl/nada_types/collections.py", "new", (1)%Z); ("nada_dsl/nada_types/collections.py", "new", (1)%Z); ("nada_dsl/nada_types/collections.py", "new", (1)%Z); ("nada_dsl/nada_types/collections.py", "new", (1)%Z); ("nada_dsl/nada_types/collections.py", "reduce", (1)%Z); ("nada_dsl/nada_types/collections.py", "unzip", (1)%Z); ("nada_dsl/nada_types/collections.py", "zip", (1)%Z); ("nada_dsl/nada_types/function.py", "__call__", (1)%Z); ("nada_dsl/nada_types/function.py", "nada_fn", (1)%Z); ("nada_dsl/nada_types/function.py", "nada_fn", (1)%Z); ("nada_dsl/nada_types/scalar_types.py", "__init__", (1)%Z); ("nada_dsl/nada_types/scalar_types.py", "__init__", (1)%Z); ("nada_dsl/nada_types/scalar_types.py", "__init__", (1)%Z); ("nada_dsl/nada_types/scalar_types.py", "__invert__", (1)%Z); ("nada_dsl/nada_types/scalar_types.py", "__invert__", (1)%Z); ("nada_dsl/nada_types/scalar_types.py", "__pow__", (1)%Z); ("nada_dsl/nada_types/scalar_types.py", "binary_arithmetic_operation", (2)%Z); ("nada_dsl/nada_types/scalar_types.py", "binary_logical_operation", (2)%Z); ("nada_dsl/nada_types/scalar_types.py", "binary_logical_operation", (2)%Z); ("nada_dsl/nada_types/scalar_types.py", "binary_relational_operation", (2)%Z); ("nada_dsl/nada_types/scalar_types.py", "ecdsa_sign", (1)%Z); ("nada_dsl/nada_types/scalar_types.py", "equals_operation", (2)%Z); ("nada_dsl/nada_types/scalar_types.py", "equals_operation", (2)%Z); ("nada_dsl/nada_types/scalar_types.py", "if_else", (1)%Z); ("nada_dsl/nada_types/scalar_types.py", "public_equals_operation", (2)%Z); ("nada_dsl/nada_types/scalar_types.py", "random", (1)%Z); ("nada_dsl/nada_types/scalar_types.py", "random", (1)%Z); ("nada_dsl/nada_types/scalar_types.py", "random", (1)%Z); ("nada_dsl/nada_types/scalar_types.py", "shift_operation", (2)%Z); ("nada_dsl/nada_types/scalar_types.py", "to_public", (1)%Z); ("nada_dsl/nada_types/scalar_types.py", "to_public", (1)%Z); ("nada_dsl/nada_types/scalar_types.py", "to_public", (1)%Z); ("nada_dsl/nada_types/scalar_types.py", "trunc_pr", (1)%Z); ("nada_dsl/nada_types/scalar_types.py", "trunc_pr", (1)%Z); ("nada_dsl/nada_types/scalar_types.py", "trunc_pr", (1)%Z); ("nada_dsl/nada_types/scalar_types.py", "trunc_pr", (1)%Z); ("nada_dsl/program_io.py", "__init__", (1)%Z); ("nada_dsl/program_io.py", "__init__", (1)%Z)].
